@@ -37,7 +37,7 @@ var c08SnapOpts = snap.Options{SkipTypes: map[reflect.Type]bool{
 // promises a copy; found by scanning /repo's current sources at check time.
 var copyDocumented = sync.OnceValue(func() map[string]bool {
 	out := map[string]bool{}
-	dirs, _ := filepath.Glob("/repo/*")
+	dirs, _ := filepath.Glob(core.RepoRoot + "/*")
 	for _, d := range dirs {
 		fset := token.NewFileSet()
 		files, _ := filepath.Glob(filepath.Join(d, "*.go"))
